@@ -85,7 +85,36 @@ func (s *Stream) groupFieldOutputName(gf string) string {
 	if a, ok := s.config.SelectAlias[gf]; ok && a != "" {
 		return a
 	}
+	// The GROUP BY item is stored with its blanks collapsed (f(a,0,1)) while the SELECT
+	// item keeps them as written (f(a, 0, 1)): compare without blanks outside quotes.
+	want := stripBlanksOutsideQuotes(gf)
+	for item, a := range s.config.SelectAlias {
+		if a != "" && stripBlanksOutsideQuotes(item) == want {
+			return a
+		}
+	}
 	return s.stripJoinAlias(gf)
+}
+
+// stripBlanksOutsideQuotes removes blanks and tabs that are not inside a quoted literal.
+func stripBlanksOutsideQuotes(text string) string {
+	var sb strings.Builder
+	var quote byte
+	for i := 0; i < len(text); i++ {
+		c := text[i]
+		switch {
+		case quote != 0:
+			if c == quote {
+				quote = 0
+			}
+		case c == '\'' || c == '"' || c == '`':
+			quote = c
+		case c == ' ' || c == '\t':
+			continue
+		}
+		sb.WriteByte(c)
+	}
+	return sb.String()
 }
 
 // isInternalAggPlaceholder reports whether a SelectFields key is an internal
